@@ -334,17 +334,22 @@ def build_evidence(mod, tier, batch_seed, jobs, done, reported, known_hits, info
             'assumptions': mod.ASSUMPTIONS, 'wall_s': round(wall, 2), 'violations': len(reported)}
 
 
-def std_jobs(plan, batch_seed):
-    """plan: list of (generator name, count[, params]) -> job list with run seeds derived from the batch seed."""
-    jobs = []
-    i = 0
-    for item in plan:
+def std_jobs(plan, batch_seed, interleave_from=None):
+    """plan: list of (generator name, count[, params]) -> job list with run seeds derived from the batch seed. Plan items
+    from position `interleave_from` on are spread evenly over the rest of the list (each in proportion to its count), so
+    that a wall budget that ends the batch early cuts all of them alike instead of starving the last ones."""
+    order = []
+    for pos, item in enumerate(plan):
         gen, count = item[0], item[1]
         params = item[2] if len(item) > 2 else None
-        for _ in range(count):
-            j = {'gen': gen, 'seed': run_seed(batch_seed, i), 'index': i}
-            if params:
-                j['params'] = params
-            jobs.append(j)
-            i += 1
+        for k in range(count):
+            key = (0, pos, k) if interleave_from is None or pos < interleave_from else (1, (k + 0.5) / count, pos)
+            order.append((key, gen, params))
+    order.sort(key=lambda t: t[0])
+    jobs = []
+    for i, (_, gen, params) in enumerate(order):
+        j = {'gen': gen, 'seed': run_seed(batch_seed, i), 'index': i}
+        if params:
+            j['params'] = params
+        jobs.append(j)
     return jobs
